@@ -694,6 +694,10 @@ class Interp:
                     return o.attrs[args[1]]
                 if isinstance(o, Obj) and (o.attrs.get('_fluent') or args[1] in self.methods.get(o.kind, {})):
                     return self._getattr(o, args[1], ftxt)
+                if isinstance(o, ClassRef):
+                    return self._getattr(o, args[1], ftxt)          # a module / class of the repository or a library
+                if getattr(type(o), '_interp_safe', False) and hasattr(o, args[1]):
+                    return getattr(o, args[1])                         # a stand-in object written by the rule itself
                 if len(args) > 2:
                     return args[2]
                 raise Raised('AttributeError', e)
@@ -755,6 +759,8 @@ class Interp:
             raise AnalysisError(f'interpreter: call of `{ftxt}` on {type(base).__name__} is not modelled')
         if isinstance(f, Closure) or callable(f):
             return f(*args, **kwargs)
+        if isinstance(f, ClassRef) and callable(self.stubs.get(f.name)):
+            return self.stubs[f.name](self, *args, **kwargs)           # reached through a value (getattr(sa, 'nullsfirst')) instead of its dotted name
         if isinstance(f, ClassRef):
             # constructor of a repository class: a stand-in object with the keyword arguments as attributes
             self.trace.append((f.name, args, kwargs))
